@@ -171,6 +171,18 @@ CHECKS = {
         design_ref="DESIGN.md 5 C22",
         note=NOTE_COMMON + " Returned floats are decoded to lattice integers (1e-9 / 1e-6 guards; undecodable = rejected); chi tolerance 1e-7 relative.",
     ),
+    "C23": dict(
+        text=("TLC enumerates the scenario space of TransferModel (kind x grid parity x extent x energy x cutoff class from "
+              "sub-pixel to near-Nyquist x soft/hard x focal/angular spreads x aberration sets: 1376 scenarios) and every scenario "
+              "is evaluated on the real Aperture / TemporalEnvelope / SpatialEnvelope / CTF objects; the harness logs fixed-point "
+              "observations (extrema, value at zero angle, extrema over the zones alpha < cutoff - half a pixel and alpha > cutoff "
+              "+ half a pixel computed from an independent frequency grid, binary-ness of hard apertures, max(|CTF| - aperture)) "
+              "and TransferTrace.tla decides the bounds of the statement; the harness fails (exit 2) unless every enumerated "
+              "scenario was observed."),
+        technique="TLA+ scenario enumeration and bound predicates (TLC) over fixed-point observations of the real kernels; TLC trace validation",
+        design_ref="DESIGN.md 5 C23",
+        note=NOTE_COMMON + " The numeric kernels are evaluated by abTEM in single precision; tolerance 2e-5. 'Half a pixel' is half of the larger angular pixel size.",
+    ),
 }
 
 NOT_APPLICABLE = {
